@@ -116,7 +116,7 @@ def make_schema(o):
     vec = o["vector"]
     if vec == "freq":
         vec = formats.Frequency()
-    return fields.Schema(
+    schema = fields.Schema(
         id=fields.ID(stored=True, unique=True, sortable=o["id_sortable"]),
         key=fields.STORED,
         t=fields.TEXT(stored=True, vector=vec, chars=o["chars"], sortable=o["t_sortable"]),
@@ -127,6 +127,10 @@ def make_schema(o):
         b=fields.BOOLEAN(stored=True),
         s=fields.STORED,
     )
+    # dynamic (glob) fields: their concrete names exist only in the documents, not in Schema.names()
+    schema.add("*_dyn", fields.KEYWORD(scorable=True, sortable=o["k_sortable"]), glob=True)
+    schema.add("*_txt", fields.TEXT(vector=bool(o["vector"])), glob=True)
+    return schema
 
 
 def gen_doc(rng, key, o, stored_only_ok=True):
@@ -145,6 +149,10 @@ def gen_doc(rng, key, o, stored_only_ok=True):
             d["k"] = " ".join(rng.choice(model.KVOCAB) for _ in range(rng.randint(1, 2)))
     if rng.random() < 0.4:
         d["b"] = rng.random() < 0.5
+    if rng.random() < 0.3:
+        d["x_dyn"] = " ".join(rng.choice(model.KVOCAB) for _ in range(rng.randint(1, 3)))
+    if rng.random() < 0.3:
+        d["y_txt"] = " ".join(model.zipf_choice(rng, model.VOCAB) for _ in range(rng.randint(1, 5)))
     if rng.random() < 0.35:
         d["s"] = {"x": rng.randint(0, 9), "y": [1, u"\xe9"]}
     if "t" in d and rng.random() < 0.15:
